@@ -143,11 +143,31 @@ for i in _gi.guard_instances():
         H(i["name"], "guard.rs", "GUARD(cover)", ["C12"], i["tier"],
           "%s: some state of depth %d enables the opcode (cover query must be satisfiable)" % (i["opname"], i["n"]),
           stubs=HEAP_STUBS, funcs=["Generator::can_emit"], cost=1 + i["n"])
+for i in _gi.guard_all_instances():
+    if i["macro"] == "guard_all":
+        H(i["name"], "guard.rs", "GUARD", ["C01", "C03", "C02", "C10", "C04", "C05", "C06", "C11", "C09"], "quick",
+          "%d opcodes (depth 0: all 68; 1-2: every opcode whose guard reads the stack or memo; 3: MARK-slice and 3-operand opcodes) at stack depth %d "
+          "in one query: %s (m <= 300); same assertions as the per-opcode instances" % (len(i["ops"]), i["n"], _ALPH),
+          stubs=HEAP_STUBS, funcs=["Generator::can_emit", "Generator::{peek,peek_at,has_mark,is_*_at,is_*_at_mark,count_items_to_mark,is_callable_above_mark}"],
+          cost=20 + 10 * i["n"], thorough_only_for=["C09"])
+    else:
+        H(i["name"], "guard.rs", "GUARD(cover)", ["C12"], "quick",
+          "cover queries for %d opcodes whose guard needs depth %d: some state of that depth enables each (every cover must be satisfiable)" % (len(i["ops"]), i["n"]),
+          stubs=HEAP_STUBS, funcs=["Generator::can_emit"], cost=5 + 5 * i["n"])
 for i in _gi.guard_shape_instances():
     H(i["name"], "guard.rs", "GUARD(shape)", ["C01", "C03", "C09"], i["tier"],
       "%s on the shape [x, MARK, %d items]: x any of the 18 variants, items in {NONE, TUPLE, CALLABLE, MARK}; flags symbolic"
       % (i["opname"], i["n"]), stubs=HEAP_STUBS, funcs=["Generator::can_emit", "Generator::{has_mark,is_*_at_mark,count_items_to_mark,is_callable_above_mark}"],
       cost=2 + i["n"], thorough_only_for=["C09"])
+for n, ops in [("step_chain_consts", "MARK, EMPTY_TUPLE, NONE, EMPTY_LIST, EMPTY_DICT, NEWTRUE"),
+               ("step_chain_consts2", "NEWFALSE, EMPTY_SET, NEXT_BUFFER, EXT1, EXT2, EXT4"),
+               ("step_chain_ints", "INT, LONG, BININT, BININT1, BININT2, LONG1, LONG4"),
+               ("step_chain_floats_bytes", "FLOAT, BINFLOAT, BINBYTES, SHORT_BINBYTES, BINBYTES8, BYTEARRAY8"),
+               ("step_chain_bytes2", "BINSTRING, SHORT_BINSTRING")]:
+    H(n, "step.rs", "STEP(chain)", ["C17", "C01", "C03", "C09", "C11"], "quick",
+      "value-pushing opcodes %s applied one after the other from a symbolic 1-slot stack, the relation re-checked after every step; "
+      "well-formed symbolic argument bytes" % ops, stubs=STEP_STUBS, funcs=["Generator::process_stack_ops (value-pushing arms)"], cost=12,
+      thorough_only_for=["C09", "C11"])
 for i in _gi.step_instances():
     memo = i["opname"] in ("PUT", "BINPUT", "LONG_BINPUT", "MEMOIZE", "GET", "BINGET", "LONG_BINGET")
     borrow = i["opname"] in ("APPEND", "APPENDS", "SETITEM", "SETITEMS", "ADDITEMS", "BUILD")
